@@ -163,7 +163,36 @@ def run(shard, rec, rng):
         allow = {os.path.realpath(p) for p in mimetypes.knownfiles}
         allow_prefix = tuple({os.path.realpath(sys.prefix), os.path.realpath(sys.base_prefix), os.path.realpath(os.environ.get("VERIF_SRC", "/repo/src"))})
         audit = Audit()
-        app = SD.SharedDataMiddleware(lambda e, s: (s("404 NOT FOUND", [("Content-Type", "text/plain")]), [b"nf"])[1], {"/static": root, "/pkg": ("werkzeug.debug", "shared")})
+        # a real package next to the tree: exported once by sub-folder and once as a whole (empty package_path);
+        # the sentinels live beside the package directory, outside both exports
+        pkgroot = os.path.join(top, "pkgroot")
+        pkgname = "c14pkg_%d" % os.getpid()
+        pkgdir = os.path.join(pkgroot, pkgname)
+        os.makedirs(os.path.join(pkgdir, "data", "sub"))
+        for rel, content in (("__init__.py", ""), ("res.txt", "PKG-RES"), ("data/d.txt", "PKG-DATA"), ("data/sub/e.txt", "PKG-DATA-SUB"),
+                             ("../secret.txt", "SENTINEL-SECRET beside the package"), ("../a.txt", "SENTINEL-SECRET beside the package")):
+            with open(os.path.join(pkgdir, rel), "w") as f:
+                f.write(content)
+        sys.path.insert(0, pkgroot)
+        # other middleware instances in the same process with their own roots (created before and after the one under test)
+        others = {}
+        for nm in ("other0", "other2"):
+            others[nm] = os.path.join(top, nm)
+            os.makedirs(others[nm])
+            with open(os.path.join(others[nm], nm + ".txt"), "w") as f:
+                f.write("SENTINEL-SECRET another instance's root")
+
+        def nf(e, s):
+            s("404 NOT FOUND", [("Content-Type", "text/plain")])
+            return [b"nf"]
+
+        app0 = SD.SharedDataMiddleware(nf, {"/static": others["other0"]})
+        app = SD.SharedDataMiddleware(nf, {"/static": root, "/pkg": ("werkzeug.debug", "shared"), "/pkgdata": (pkgname, "data"), "/pkgtop": (pkgname, "")})
+        app2 = SD.SharedDataMiddleware(nf, [("/static", others["other2"])])
+        sys.path.remove(pkgroot)
+        rec.observe("middleware_instances", 3 if app0 is not app2 else 0)
+        wz_shared = os.path.realpath(os.path.join(os.path.dirname(SD.__file__), "..", "debug", "shared"))
+        serving_roots = {"/static/": realroot, "/pkg/": wz_shared, "/pkgdata/": os.path.realpath(os.path.join(pkgdir, "data")), "/pkgtop/": os.path.realpath(pkgdir)}
         # pre-warm: everything that is opened lazily regardless of the request path
         for warm in ("a.txt", "nope.txt"):
             try:
@@ -181,7 +210,26 @@ def run(shard, rec, rng):
             if d != c:
                 reqs.append(d)
         reqs += ["../root-private/secret2.txt", "x/../../root-private/secret2.txt", "../root.bak", "sub/../../root.bak", "/" + top + "/root.bak", "/" + top + "/root-private/secret2.txt",
-                 "..%2froot-private%2fsecret2.txt", "../root-private", "../root.bak/", "a.txt/../../root.bak"]
+                 "..%2froot-private%2fsecret2.txt", "../root-private", "../root.bak/", "a.txt/../../root.bak",
+                 "other0.txt", "other2.txt", "../other0/other0.txt", "d.txt", "res.txt", "sub/e.txt", "data/d.txt", "../res.txt", "sub/../../res.txt", "data/../../secret.txt",
+                 "../" + pkgname + "/res.txt", "/" + pkgroot + "/secret.txt", "__init__.py"]
+
+        def opened_outside(allowed_root):
+            for p in audit.opened:
+                rec.observe("audit_open_events")
+                if isinstance(p, bytes):
+                    p = os.fsdecode(p)
+                if not isinstance(p, str):
+                    continue
+                rp = os.path.realpath(p)
+                if rp == allowed_root or rp.startswith(allowed_root + os.sep):
+                    continue
+                if rp in allow or (rp.startswith(allow_prefix) and not rp.startswith(wz_shared + os.sep)):
+                    rec.observe("audit_allowlisted")
+                    continue
+                return p, rp
+            return None
+
         for c in reqs:
             n += 1
             if n % of != idx:
@@ -191,9 +239,21 @@ def run(shard, rec, rng):
                 rec.nontrivial(("e2e", c))
             case = {"function": "static-file", "request_path": c}
             bodies = []
-            audit.opened.clear()
-            audit.armed = True
-            try:
+            outside = None
+
+            def serving(allowed_root, fn):
+                nonlocal outside
+                audit.opened.clear()
+                audit.armed = True
+                try:
+                    fn()
+                finally:
+                    audit.armed = False
+                o = opened_outside(allowed_root)
+                if o and outside is None:
+                    outside = o
+
+            def direct():
                 try:
                     resp = utils.send_from_directory(root, c, create_environ())
                     bodies.append(b"".join(resp.response) if resp.response else b"")
@@ -201,6 +261,8 @@ def run(shard, rec, rng):
                     rec.observe("served_files")
                 except HTTPException:
                     rec.observe("requests_404")
+
+            def rooted():
                 try:
                     # a relative trusted directory resolved against a root path (how Flask calls it)
                     resp = utils.send_from_directory("root", c, create_environ(), _root_path=top)
@@ -213,7 +275,9 @@ def run(shard, rec, rng):
                     rec.observe("root_path_keyword_gone")
                 except Exception as e:
                     rec.observe(f"send_from_directory_raised:{type(e).__name__}")
-                for prefix in ("/static/", "/pkg/"):
+
+            def shared(prefix):
+                def go():
                     env = create_environ()
                     env["PATH_INFO"] = prefix + c
                     try:
@@ -223,28 +287,22 @@ def run(shard, rec, rng):
                             it.close()
                         bodies.append(body)
                         rec.observe("served_files" if st.startswith("200") else "requests_404")
+                        if st.startswith("200"):
+                            rec.observe("served_by:" + prefix)
                     except Exception as e:
                         # nothing was served: not a containment matter (observed, reported in the evidence only)
                         rec.observe(f"shared_data_raised:{type(e).__name__}")
-            finally:
-                audit.armed = False
+                return go
+
+            serving(realroot, direct)
+            serving(realroot, rooted)
+            for prefix, aroot in serving_roots.items():
+                serving(aroot, shared(prefix))
             if any(b"SENTINEL-SECRET" in b for b in bodies):
                 rec.violation("C14/sentinel-served", f"{case}", case, monitor="response-body")
                 continue
-            for p in audit.opened:
-                rec.observe("audit_open_events")
-                if isinstance(p, bytes):
-                    p = os.fsdecode(p)
-                if not isinstance(p, str):
-                    continue
-                rp = os.path.realpath(p)
-                if rp == realroot or rp.startswith(realroot + os.sep):
-                    continue
-                if rp in allow or rp.startswith(allow_prefix):
-                    rec.observe("audit_allowlisted")
-                    continue
-                rec.violation("C14/open-outside-root", f"open({p!r}) -> {rp!r} while serving {c!r}; {case}", case, monitor="audit-hook")
-                break
+            if outside:
+                rec.violation("C14/open-outside-root", f"open({outside[0]!r}) -> {outside[1]!r} while serving {c!r}; {case}", case, monitor="audit-hook")
     finally:
         shutil.rmtree(top, ignore_errors=True)
     # ---- secure_filename
